@@ -15,7 +15,7 @@ from simkit.simtime import CLOCK
 
 PROP = "C10"
 LEVEL = "fault_enumeration"
-BUDGET_S = {"quick": 420, "thorough": 4 * 3600}
+BUDGET_S = {"quick": 420, "thorough": 1800}
 CHUNK = 25
 RULE = (
     "each run = one plan drawn from one integer: transport (UART/HID), max packet size, timing knobs, a history of "
